@@ -316,9 +316,10 @@ func (p pdr) String() string {
 }
 
 func (p pdr) IsAppFilterEmpty() bool {
+	// the prefix matches everything iff its mask is empty; 0.0.0.0/1 is a filter
 	return p.appFilter.proto == 0 &&
-		((p.IsUplink() && p.appFilter.dstIP == 0 && p.appFilter.dstPortRange.isWildcardMatch()) ||
-			(p.IsDownlink() && p.appFilter.srcIP == 0 && p.appFilter.srcPortRange.isWildcardMatch()))
+		((p.IsUplink() && p.appFilter.dstIP == 0 && p.appFilter.dstIPMask == 0 && p.appFilter.dstPortRange.isWildcardMatch()) ||
+			(p.IsDownlink() && p.appFilter.srcIP == 0 && p.appFilter.srcIPMask == 0 && p.appFilter.srcPortRange.isWildcardMatch()))
 }
 
 func (p pdr) IsUplink() bool {
